@@ -22,6 +22,9 @@ type Error struct {
 	Line int
 	// Description is a human-readable description of the problem.
 	Description string
+	// loc is the location of Node, computed when the error is created: the node belongs to
+	// a parse tree that a later analysis may rewrite while the error is being printed.
+	loc string
 }
 
 // ErrorCode is a code for a kind of error.
@@ -265,6 +268,8 @@ const (
 
 func (e *Error) Error() string {
 	switch {
+	case e.Node != nil && e.loc != "":
+		return fmt.Sprintf("html/template:%s: %s", e.loc, e.Description)
 	case e.Node != nil:
 		loc, _ := (*parse.Tree)(nil).ErrorContext(e.Node)
 		return fmt.Sprintf("html/template:%s: %s", loc, e.Description)
@@ -279,5 +284,9 @@ func (e *Error) Error() string {
 // errorf creates an error given a format string f and args.
 // The template Name still needs to be supplied.
 func errorf(k ErrorCode, node parse.Node, line int, f string, args ...interface{}) *Error {
-	return &Error{k, node, "", line, fmt.Sprintf(f, args...)}
+	e := &Error{ErrorCode: k, Node: node, Line: line, Description: fmt.Sprintf(f, args...)}
+	if node != nil {
+		e.loc, _ = (*parse.Tree)(nil).ErrorContext(node)
+	}
+	return e
 }
